@@ -126,6 +126,37 @@ pub(crate) fn c13_scalarmult_base_recoding() {
         }
         vassert!(carry == 0, "scalarmult_base: no digit weight is lost above 2^256 (top carry kept)");
     }
+    #[cfg(not(kani))]
+    {
+        // native twin: a*B by plain binary double-and-add over the group operations (no recoding, no table), for the counterexample scalar and
+        // for two fixed scalars that exercise the top digit; any failing scalar is a genuine violation
+        let mut top = [0xffu8; 32];
+        top[31] = 0x7f;
+        let mut mid = [0x77u8; 32];
+        mid[31] = 0x78;
+        for sc in [b, top, mid] {
+            assert!(Ge::scalarmult_base(&Scalar::from_bytes(&sc)).to_bytes() == native_binary_mul_base(&sc), "scalarmult_base: no digit weight is lost above 2^256 (top carry kept)");
+        }
+    }
+}
+#[cfg(not(kani))]
+fn native_binary_mul_base(k: &[u8; 32]) -> [u8; 32] {
+    // the decoder returns the NEGATED point, so decoding the encoding of -B yields B
+    let mut enc = [0x66u8; 32];
+    enc[0] = 0x58;
+    enc[31] |= 0x80;
+    let b = Ge::from_bytes(&enc).unwrap();
+    let bc = b.to_cached();
+    let mut acc = Ge::ZERO;
+    let mut i = 256;
+    while i > 0 {
+        i -= 1;
+        acc = acc.double();
+        if (k[i >> 3] >> (i & 7)) & 1 == 1 {
+            acc = (&acc + &bc).to_full();
+        }
+    }
+    acc.to_bytes()
 }
 
 // ------------------------------------------------------------------------------------------------ select
